@@ -1172,6 +1172,40 @@ for _prop in ("C01", "C02"):
     scenario(_prop, [UNION + ".sample_grid", UNION + "._sample_grid_with_n", UNION + "._sample_in_b", UNION + "._points_lay_in_other_domain", UNION + "._get_volume"], configs=["none", "1"])(_kug)
 
 
+@scenario("C06", [UNIONB + ".normal", CUTB + ".normal", INTERB + ".normal", "torchphysics.problem.domains.domain.BoundaryDomain._transform_input_for_normals"], configs=["union", "cut", "intersection"])
+def boolean_boundary_normal(S):
+    """normal() of the boundary of a Boolean operation over ABSTRACT operands (operand contract: the operand's normal
+    field n_X(x, p) is a unit vector at every row): one row per point; at a point on the boundary of A the result is
+    n_A, at a point that is only on the boundary of B it is n_B (union, intersection) resp. -n_B (cut: the normals of
+    the removed part are flipped); the result is a unit vector.  That n_A / +-n_B is the outward direction of the
+    composite set at such a point is the locality argument A7 (not mechanised; ill-defined where both boundaries meet)."""
+    op = S.cfg
+    A, B, dom = mk_bool(S, op)
+    N = S.int("N", 1)
+    X, pts, params, pv = point_rows(S, N)
+    bd = S.getattr(dom, "boundary")
+    res = S.method(bd, "normal", pts, params).val
+    ok = res.rank == 2 and res.shape[1].concrete() == 2
+    S.ensure("one-row-per-point-two-components", ok and res.shape[0].size_term() == zint(N))
+    if not ok:
+        return
+
+    def parts(q):
+        x, p = cols(X.val, q[0], 2), pv(q[0])
+        nA = [f(*(x + p)) for f in A.boundary.Nrm]
+        nB = [f(*(x + p)) for f in B.boundary.Nrm]
+        return A.boundary.in_pred(x, p), B.boundary.in_pred(x, p), nA, nB, cols(res, q[0], 2)
+
+    sgn = -1 if op == "cut" else 1
+
+    def goal(q):
+        onA, onB, nA, nB, r = parts(q)
+        return z3.And(z3.Implies(onA, z3.And([r[c] == nA[c] for c in range(2)])), z3.Implies(z3.And(onB, z3.Not(onA)), z3.And([r[c] == sgn * nB[c] for c in range(2)])))
+
+    S.forall("operand-selection-and-sign", res, goal)
+    S.forall("unit-length", res, lambda q: z3.Implies(z3.Or(parts(q)[0], parts(q)[1]), parts(q)[4][0] * parts(q)[4][0] + parts(q)[4][1] * parts(q)[4][1] == 1))
+
+
 # ----------------------------------------------------------------------------- C18 boxes of moved domains
 @scenario("C18", [TRANS + ".bounding_box"], configs=["fn/K", "const/none"])
 def translate_bounding_box(S):
